@@ -22,7 +22,7 @@ func VC12_SameConnection() {
 	L, NC, NT := rt.Param("L"), rt.Param("NC"), rt.Param("NT")
 	support := rt.Bool("received-support")
 	w := newWorld(worldOpts{nBackends: 1, tcpListener: true, hosts: map[string]string{"ua.example.com": "10.0.2.2"}})
-	sentByKind := rt.Choice("sent-by", 3) // 0 same IP sent-by on all connections, 1 different ports, 2 by name (same on all)
+	sentByKind := rt.Choice("sent-by", 4) // 0 same IP sent-by on all connections, 1 different ports, 2 by name (same on all), 3 a private address behind a NAT
 	var conns []*fakenet.TCPConn
 	var ports []int
 	for c := 0; c < NC; c++ {
@@ -30,6 +30,7 @@ func VC12_SameConnection() {
 		ports = append(ports, port)
 		conns = append(conns, fakenet.NewTCPConn(wListenAddr+":5060", "10.0.2.2:"+itoa(port)))
 	}
+	rport := rt.Bool("rport-requested")
 	var txns []c12Txn
 	var branches []string
 	// requests: connection-major or transaction-major order
@@ -45,6 +46,11 @@ func VC12_SameConnection() {
 			sentBy = "10.0.2.2:" + itoa(6000+c)
 		case 2:
 			sentBy = "ua.example.com:5060"
+		case 3:
+			sentBy = "192.168.7.7:5060" // a private address behind a NAT: not the address the connection comes from
+		}
+		if rport {
+			sentBy += ";rport"
 		}
 		method := c12Methods[rt.Choice("method", rt.Param("M"))]
 		callID := "c" + itoa(c) + "t" + itoa(t)
